@@ -47,17 +47,20 @@ def tb(bits):
 
 
 # ---- neutral forms ---------------------------------------------------------------------------------
+NATC = {RuleNature.COMPRESSION: 'C', RuleNature.NO_COMPRESSION: 'N', RuleNature.FRAGMENTATION: 'F'}
+
+
 def n_rule(rule):
     """library RuleDescriptor -> neutral dict"""
     fds = []
-    for rf in (rule.field_descriptors if rule.nature is RuleNature.COMPRESSION else []):
+    for rf in (rule.field_descriptors if rule.nature is not RuleNature.NO_COMPRESSION else []):
         if isinstance(rf.target_value, MatchMapping):
             tv = ('m', [(bits_of(k), bits_of(v)) for k, v in rf.target_value.forward.items()])
         else:
             tv = ('b', bits_of(rf.target_value))
         fds.append(dict(fid=fid_of(rf.id), len=rf.length, pos=rf.position, dir=DIRC[DI(rf.direction)],
                         mo=MOC[MO(rf.matching_operator)], cda=CDAC[CDA(rf.compression_decompression_action)], tv=tv))
-    return dict(id=bits_of(rule.id), nature='C' if rule.nature is RuleNature.COMPRESSION else 'N', fds=fds)
+    return dict(id=bits_of(rule.id), nature=NATC[rule.nature], fds=fds)
 
 
 def n_pdesc(pd):
@@ -81,8 +84,8 @@ def rule_tokens(nr):
 def raw_rule_tokens(rule):
     """the rule as the objects are (raw Buffer fields: bytes, length, padding side, padding length) for the byte-level model"""
     from core import raw
-    fds = rule.field_descriptors if rule.nature is RuleNature.COMPRESSION else []
-    t = ['R', raw(rule.id), 'C' if rule.nature is RuleNature.COMPRESSION else 'N', str(len(fds))]
+    fds = rule.field_descriptors if rule.nature is not RuleNature.NO_COMPRESSION else []
+    t = ['R', raw(rule.id), NATC[rule.nature], str(len(fds))]
     for rf in fds:
         fid = fid_of(rf.id)
         t += [fid[0], str(fid[1]), str(rf.length), str(rf.position), DIRC[DI(rf.direction)], MOC[MO(rf.matching_operator)], CDAC[CDA(rf.compression_decompression_action)]]
@@ -169,6 +172,8 @@ def ref_compress(npd, nr, d=None):
     """The SCHC packet of RFC 8724 section 7: rule id, residues in rule order, payload."""
     if nr['nature'] == 'N':
         return nr['id'] + ''.join(f[2] for f in npd['fields']) + npd['payload']
+    if nr['nature'] == 'F':
+        return nr['id']          # what compress does with a fragmentation rule (never selected by a manager): the bare id
     out = nr['id']
     for (fid, pos, v), fd in zip(npd['fields'], select(nr, d)):
         r = ref_residue(v, fd)
@@ -199,6 +204,8 @@ def ref_rule_applies(npd, nr):
     """C04: the rule is offered iff ..."""
     if nr['nature'] == 'N':
         return True
+    if nr['nature'] == 'F':
+        return False             # rules of fragmentation nature share the id space and are never offered for compression
     fds = select(nr, npd['dir'])
     if len(fds) != len(npd['fields']):
         return False
@@ -399,6 +406,8 @@ def is_lossless_for(npd, nr, d=None):
     """nr applies to npd through descriptors that are lossless by construction (the quantifier of C01)."""
     if nr['nature'] == 'N':
         return True
+    if nr['nature'] == 'F':
+        return False
     fds = select(nr, d if d is not None else npd['dir'])
     if len(fds) != len(npd['fields']):
         return False
